@@ -166,9 +166,15 @@ func solve(name string, query string, o solveOpts) SolveResult {
 	t0 := time.Now()
 	for range use {
 		a := <-ch
-		first := strings.TrimSpace(a.out)
-		if i := strings.IndexByte(first, '\n'); i >= 0 {
-			first = strings.TrimSpace(first[:i])
+		// the verdict is the first line that is not a warning
+		first := ""
+		for _, l := range strings.Split(a.out, "\n") {
+			l = strings.TrimSpace(l)
+			if l == "" || strings.HasPrefix(l, "WARNING") {
+				continue
+			}
+			first = l
+			break
 		}
 		if strings.Contains(a.out, "(error") && !strings.Contains(a.out, "model is not available") && !strings.Contains(a.out, "Cannot get model") {
 			first = "error"
